@@ -570,9 +570,16 @@ def rule_tag_plumbing(fm, rep, rid='R2'):
         if ok:
             ct = norm(T.call_term(pushes[0]))
             item = ct[2][1]
-            ok = on_self_path(strip_mut(ct[2][0]), client_field(cad, 'tags', SCB)) and item[0] == 'tuple'
-            if ok:
+            ok = on_self_path(strip_mut(ct[2][0]), client_field(cad, 'tags', SCB)) and item[0] in ('tuple', 'adt')
+            if ok and item[0] == 'adt':
+                from .common import _tag_struct
+                ts_ = _tag_struct(cad, item[1])
+                ok = ts_ is not None and set(dict(item[3])) == set(ts_)
+                if ok:
+                    k, v = dict(item[3])[ts_[0]], dict(item[3])[ts_[1]]
+            elif ok:
                 k, v = item[1]
+            if ok:
 
                 def ts(t, p):
                     return term_callee_is(t, 'as alloc::string::ToString>::to_string') and peel(t[2][0]) == ('param', p)
@@ -838,6 +845,13 @@ def _forward_view_of_tags(cad, x):
     """x is &self.tags / self.tags.iter() / self.tags.iter().map(|(k, v)| (k.as_deref(), v.as_str())) ..."""
     from .. import symb
     fpath = client_field_path(cad, 'tags')
+    # the configured item: a (key, value) tuple, or a private struct of the same two parts
+    KF, VF = 0, 1
+    from .common import _tag_struct
+    for f_ in adt_fields(cad, 'cadence::client::StatsdClient') or []:
+        ty_ = f_['ty'].replace(' ', '')
+        if ty_.startswith('alloc::vec::Vec<') and _tag_struct(cad, type_head(ty_[len('alloc::vec::Vec<'):-1])):
+            KF, VF = _tag_struct(cad, type_head(ty_[len('alloc::vec::Vec<'):-1]))
     y = x
     for _ in range(8):
         y = peel(y)
@@ -856,21 +870,21 @@ def _forward_view_of_tags(cad, x):
                 okc = r[0] == 'tuple' and len(r[1]) == 2
                 if okc:
                     k, v = r[1]
-                    okc = deep_peel(strip_views(k)) == ('field', ('item',), 0) and deep_peel(strip_views(v)) == ('field', ('item',), 1)
+                    okc = deep_peel(strip_views(k)) == ('field', ('item',), KF) and deep_peel(strip_views(v)) == ('field', ('item',), VF)
                 elif r[0] == 'phi':
                     # `match k { Some(k) => (Some(k.as_str()), v), None => (None, v) }` is as_deref() written out: both arms,
                     # the key of the Some arm a view of the item's own key
                     kinds = set()
                     okc = True
                     for leaf in flatten_phi(r):
-                        if not (leaf[0] == 'tuple' and len(leaf[1]) == 2 and deep_peel(strip_views(leaf[1][1])) == ('field', ('item',), 1)):
+                        if not (leaf[0] == 'tuple' and len(leaf[1]) == 2 and deep_peel(strip_views(leaf[1][1])) == ('field', ('item',), VF)):
                             okc = False
                             break
                         k = peel(leaf[1][0])
                         if k[0] == 'adt' and k[2] == 'None':
                             kinds.add('None')
                         elif k[0] == 'adt' and k[2] == 'Some' and \
-                                deep_peel(strip_views(dict(k[3])['0'])) == ('field', ('payload', ('field', ('item',), 0), 'Some'), '0'):
+                                deep_peel(strip_views(dict(k[3])['0'])) == ('field', ('payload', ('field', ('item',), KF), 'Some'), '0'):
                             kinds.add('Some')
                         else:
                             okc = False
@@ -975,6 +989,17 @@ def string_alternatives(T, t, depth=0):
             out.extend(a for a in r if a not in out)
         return out
     if term_callee_is(t, 'alloc::string::String::new') or term_callee_is(t, 'alloc::string::String::with_capacity'):
+        return [[]]
+    # the same text in another owned form: Box<str> / Arc<str> (`format!(..).into_boxed_str()`, `Box::<str>::default()`)
+    if t[0] == 'call' and isinstance(t[1], str) and len(t[2]) == 1 and (
+            t[1] == 'alloc::string::String::into_boxed_str' or
+            strip_generics(t[1]) in ('<alloc::boxed::Box<str> as core::convert::From<alloc::string::String>>::from', '<alloc::boxed::Box as core::convert::From>::from',
+                                     '<alloc::sync::Arc as core::convert::From>::from', '<alloc::string::String as core::convert::Into>::into',
+                                     '<T as core::convert::Into>::into')):
+        return string_alternatives(T, t[2][0], depth + 1)
+    if t[0] == 'call' and isinstance(t[1], str) and not t[2] and strip_generics(t[1]) in (
+            '<alloc::boxed::Box as core::default::Default>::default', '<alloc::string::String as core::default::Default>::default',
+            '<alloc::boxed::Box<str> as core::default::Default>::default'):
         return [[]]
     if term_callee_is(t, 'alloc::fmt::format'):
         try:
